@@ -212,6 +212,10 @@ Proof.
   - vm_compute. discriminate.
 Qed.
 
+(* the key of HistogramLayerState's histogram cache, in the current source: the attribute by IDENTITY, log, limits, bins *)
+Theorem histogram_key_fields : hist_key_fields = [1; 2; 3; 4; 5].
+Proof. vm_compute. reflexivity. Qed.
+
 (* ---------- fresh evaluation is C01's elementwise evaluation when no part raises ---------- *)
 Lemma fold_lift_some : forall (lt : nat -> mask) lm l acc,
   (forall n, lm n = Some (lt n)) ->
